@@ -561,22 +561,13 @@ def body_stage(case):
                 obj_b = obj if which == "interleave" else stage.make(case)
             # harness-owned schedule: a call on this object is suspended after its k-th line inside the package, a
             # second call (the permuted batch: same shapes) runs to completion on the SAME object, the first resumes
-            from ..interleave import run_interleaved
+            from ..interleave import check_overlapping
 
             r, want = [np.array(b_) for b_ in base], base
-            for k_ in case.get("preempt", [3]):
-                mine, theirs = tuple(np.array(a) for a in arrays), tuple(np.array(a[perm]) for a in arrays)
-                o = run_interleaved(lambda: stage.call(obj, mine, c), lambda: stage.call(obj_b, theirs, c), k_)
-                for exc, who in ((o.a_exc, "suspended"), (o.b_exc, "overlapping")):
-                    if exc is not None:
-                        raise Violation(f"{stage.name}: the {who} one of two overlapping calls on {'one object' if which == 'interleave' else 'two objects of one configuration'} raised {type(exc).__name__}: {str(exc)[:200]} (first call suspended after {k_} lines)")
-                ra, rb = [np.asarray(x) for x in o.a], [np.asarray(x) for x in o.b]
-                for j2, (g, b) in enumerate(zip(ra, base)):
-                    require(_bytes([g]) == _bytes([b]), f"{stage.name}: a call suspended after {k_} lines while a second call ran on {'the same object' if which == 'interleave' else 'another object of the same configuration'} returns other values in output #{j2} than on its own ({n} events)")
-                for j2, (g, b) in enumerate(zip(rb, base)):
-                    require(_bytes([g]) == _bytes([b[perm]]), f"{stage.name}: a call that ran while another call on {'the same object' if which == 'interleave' else 'another object of the same configuration'} was suspended after {k_} lines returns other values in output #{j2} than on its own ({n} events)")
-                if o.reached:
-                    labels.add("overlapping_calls" if which == "interleave" else "overlapping_calls_two_objects")
+            mine, theirs = tuple(np.array(a) for a in arrays), tuple(np.array(a[perm]) for a in arrays)
+            where = "one object" if which == "interleave" else "two objects of one configuration"
+            if check_overlapping(lambda: stage.call(obj, mine, c), lambda: stage.call(obj_b, theirs, c), case.get("preempt", [3]), f"{stage.name} ({n} events, {where})"):
+                labels.add("overlapping_calls" if which == "interleave" else "overlapping_calls_two_objects")
         elif which == "churn":
             # objects of other configurations are created, used and dropped (their memory is recycled), then a NEW
             # object of this configuration is created: it must not inherit anything from the dead ones
